@@ -59,48 +59,49 @@ def bigTx (n : Nat) (fill : UInt8) (nonce : Nat) : Bytes :=
     ([] : Bytes), List.replicate 20 (0 : UInt8), (0 : UInt8)), [])
 
 def stepLedger (toks : List String) : String :=
+  let tbl := parseKeyTable (toks.getLastD "")
   match toks with
-  | ["tx", b, keys] =>
-    match Hex.ofHex b with
+  | ["tx", b, _keys] =>
+    match ofHex b with
     | none => "bad-op"
     | some b =>
-      match txFromRawBytes (parseKeys keys) H b with
+      match txFromRawBytes (lookupKey tbl) H b with
       | .ok t => showTxRes t
       | .error e => errStr e
-  | ["txprop", b, alt, trailing, keys] =>
-    match Hex.ofHex b, Hex.ofHex alt, Hex.ofHex trailing with
-    | some b, some alt, some tr => txProp (parseKeys keys) b alt tr
+  | ["txprop", b, alt, trailing, _keys] =>
+    match ofHex b, ofHex alt, ofHex trailing with
+    | some b, some alt, some tr => txProp (lookupKey tbl) b alt tr
     | _, _, _ => "bad-op"
   | ["txbig", n, fill, nonce] =>
-    match n.toNat?, Hex.ofHex fill, nonce.toNat? with
+    match n.toNat?, ofHex fill, nonce.toNat? with
     | some n, some [f], some nonce =>
       let b := bigTx n f nonce
       "len=" ++ toString b.length ++ " " ++
         (match txFromRawBytes (fun _ => none) H b with | .ok t => "ok hash=" ++ hex t.hash | .error e => errStr e)
     | _, _, _ => "bad-op"
-  | ["hdr", b, keys] =>
-    match Hex.ofHex b with
+  | ["hdr", b, _keys] =>
+    match ofHex b with
     | none => "bad-op"
     | some b =>
-      match headerTy.dec (parseKeys keys) b with
+      match headerTy.dec (lookupKey tbl) b with
       | .ok (h, rest) => "ok " ++ headerTy.show h ++ " hash=" ++ hex (headerHash H h) ++ " rest=" ++ toString rest.length
       | .error e => errStr e
-  | ["hdrprop", b, alt, keys] =>
-    match Hex.ofHex b, Hex.ofHex alt with
-    | some b, some alt => hdrProp (parseKeys keys) b alt
+  | ["hdrprop", b, alt, _keys] =>
+    match ofHex b, ofHex alt with
+    | some b, some alt => hdrProp (lookupKey tbl) b alt
     | _, _ => "bad-op"
-  | ["blk", b, keys] =>
-    match Hex.ofHex b with
+  | ["blk", b, _keys] =>
+    match ofHex b with
     | none => "bad-op"
     | some b =>
-      match blockDec (parseKeys keys) H b with
+      match blockDec (lookupKey tbl) H b with
       | .ok (bv, rest) => showBlock bv rest
       | .error e => errStr e
-  | ["blkbad", _, b, keys] =>
-    match Hex.ofHex b with
+  | ["blkbad", _, b, _keys] =>
+    match ofHex b with
     | none => "bad-op"
     | some b =>
-      match blockDec (parseKeys keys) H b with
+      match blockDec (lookupKey tbl) H b with
       | .ok (bv, rest) => showBlock bv rest
       | .error e => errStr e
   | _ => "bad-op"
